@@ -180,7 +180,7 @@ def http_response(rng, body=None, ctype=None, location=None):
         hdrs.append(('Content-Type', ctype))
     if location is not None or status in (301, 302, 307):
         hdrs.append(('Location', location if location is not None else rng.choice(
-            ['/next', 'http://[', '', 'http://a.test:99999/', '//', '\xff', 'http://a.test/%', 'x' * 5000, '/a\r\n b', 'http://a.test/\udc80'.encode('utf-8', 'surrogatepass').decode('latin-1')])))
+            ['/next', 'http://[', '', 'http://a.test:99999/', 'http://a.test:65536/x', '//a.test:65536/x', 'http://a.test:65535/x', 'http://a.test:0/x', 'http://a.test:00080/x', '//', '\xff', 'http://a.test/%', 'x' * 5000, '/a\r\n b', 'http://a.test/\udc80'.encode('utf-8', 'surrogatepass').decode('latin-1')])))
     coding = rng.choice([None, None, None, 'gzip', 'deflate', 'x-gzip', 'bogus', 'gzip, deflate'])
     payload = body
     if coding in ('gzip', 'x-gzip', 'gzip, deflate'):
@@ -220,7 +220,12 @@ def http_response(rng, body=None, ctype=None, location=None):
         hdrs.append(rng.choice([('Set-Cookie', rng.choice(['a=b', 'a=b; Domain=.test; Path=/; Expires=garbage', '=', '\xff=\xfe', 'a=' + 'b' * 5000, 'a=b; Max-Age=x'])),
                                 ('Refresh', rng.choice(['0; url=/refresh', 'x', '5', '0;url=http://['])),
                                 ('Connection', rng.choice(['close', 'keep-alive', 'x'])), ('X-Fold', 'a\r\n b'), ('Link', '</l>; rel=x'),
-                                ('Last-Modified', rng.choice(['garbage', 'Mon, 01 Jan 2001 00:00:00 GMT', '99999999999'])),
+                                ('Last-Modified', rng.choice(['garbage', 'Mon, 01 Jan 2001 00:00:00 GMT', '99999999999',
+                                                              # dates that PARSE, with a field no calendar holds
+                                                              'Wed, 01 Jan 2020 00:00:99999999999999999999 GMT', 'Wed, 01 Jan 2020 00:99999999999999999999:00 GMT',
+                                                              'Wed, 99999999999999999999 Jan 2020 00:00:00 GMT', 'Wed, 01 Jan 99999999999999999999 00:00:00 GMT',
+                                                              'Wed, 01 Jan 0000 00:00:00 GMT', 'Wed, 01 Jan 1601 00:00:00 -9999', 'Thu, 31 Dec 9999 23:59:59 GMT',
+                                                              'Wed, 31 Feb 2020 25:61:61 GMT', '01 Jan 70 00:00:00 +2400', 'Wed, 01 Jan 2020 00:00:00 +' + '9' * 30])),
                                 ('Content-Disposition', rng.choice(['attachment; filename="../../x"', 'attachment; filename=', 'x'])),
                                 ('WWW-Authenticate', 'Basic realm="x"'), ('', 'empty-name'), ('No-Colon-Here', None),
                                 # names outside ASCII: the record normalises names with str.title(), which maps some
